@@ -142,7 +142,7 @@ def run_one(sc):
     done = [False]
 
     def in_range():
-        return (snd.rto <= 100 and cc.cwnd <= 400000 and cc.ssthresh <= 400000 and env.now <= 1500
+        return (snd.rto <= 100 and cc.cwnd <= 400000 and cc.ssthresh <= 400000 and env.now <= (80 if cubic else 1500)
                 and snd.next_seq < (1 << 24))
 
     def deliver(ackno, stamp):
@@ -176,9 +176,7 @@ def run_one(sc):
                 if ackno <= snd.last_ack:
                     continue
                 if op.get("rtt", -1) >= 0:
-                    stamp = env.now - tm(op["rtt"])
-                    if stamp < 0:
-                        stamp = 0
+                    stamp = env.now - tm(op["rtt"])      # may be negative: a time stamp is just a number
                 else:
                     stamp = last_tx.get(ackno - MSS, env.now)
                 if not deliver(ackno, stamp):
@@ -208,6 +206,8 @@ def run_one(sc):
         if ev and ev[-1]["e"] == "X":
             ok = False
             break
+        if not in_range():
+            break          # the next values would leave the fixed-point range: the observation ends here
         steps += 1
         if steps > 50000 or len(ev) > 1500:
             log(e="X", type="Runaway")
